@@ -242,10 +242,8 @@ pub fn zeroize(cx: &mut Ctx, args: &Args, rng: &mut Rng) -> i32 {
         for route in Route::ALL {
             // is the route available for this type?
             let k0 = r.bytes(ksz);
-            super::special::set_force_off(force_off);
             let avail = catch(|| f(&k0, 0x11, route)).ok().flatten().is_some();
             if !avail {
-                super::special::set_force_off(false);
                 continue;
             }
             cx.reset(name);
@@ -267,8 +265,7 @@ pub fn zeroize(cx: &mut Ctx, args: &Args, rng: &mut Rng) -> i32 {
                     }
                 }
             }
-            super::special::set_force_off(false);
-            cx.emit(json!({"ev":"zend","type":name,"route":route.name(),"nkeys":keys.len(),"zeroize":cfg!(feature = "zeroize")}));
+            cx.emit(json!({"ev":"zend","type":name,"route":route.name(),"nkeys":keys.len(),"klen":ksz,"zeroize":cfg!(feature = "zeroize")}));
             cx.end();
         }
     }
